@@ -26,6 +26,7 @@ use provwasm_common::MockableQuerier;
 use provwasm_mocks::{mock_provenance_dependencies, MockProvenanceQuerier};
 use provwasm_std::shim::Any;
 use provwasm_std::types::cosmos::auth::v1beta1::BaseAccount;
+use provwasm_std::types::cosmos::base::query::v1beta1::PageResponse;
 use provwasm_std::types::provenance::attribute::v1::{
     Attribute, AttributeType, QueryAttributesRequest, QueryAttributesResponse,
 };
@@ -63,7 +64,7 @@ const TRACE_WORDS: &[&str] = &[
 struct Tables {
     // denomination -> (marker type, status, required attributes)
     markers: BTreeMap<String, (i32, i32, Vec<String>)>,
-    attrs: BTreeMap<String, Vec<String>>,
+    attrs: BTreeMap<String, Vec<Vec<String>>>,     // per account: the pages its attribute listing is served in
 }
 
 fn sys_err(kind: &str) -> cosmwasm_std::QuerierResult {
@@ -157,7 +158,11 @@ fn new_deps(tables: &Rc<RefCell<Tables>>) -> Deps {
                 Ok(r) => r,
                 Err(_) => return sys_err("undecodable QueryAttributesRequest"),
             };
-            let names = t.borrow().attrs.get(&req.account).cloned().unwrap_or_default();
+            let pages = t.borrow().attrs.get(&req.account).cloned().unwrap_or_default();
+            // page k is asked for with key = [k]; no key = first page
+            let k = req.pagination.as_ref().and_then(|p| p.key.first().copied()).unwrap_or(0) as usize;
+            let names = pages.get(k).cloned().unwrap_or_default();
+            let more = k + 1 < pages.len();
             let resp = QueryAttributesResponse {
                 account: req.account.clone(),
                 attributes: names
@@ -169,7 +174,11 @@ fn new_deps(tables: &Rc<RefCell<Tables>>) -> Deps {
                         address: req.account.clone(),
                     })
                     .collect(),
-                pagination: None,
+                pagination: if pages.len() > 1 {
+                    Some(PageResponse { next_key: if more { vec![(k + 1) as u8] } else { vec![] }, total: 0 })
+                } else {
+                    None
+                },
             };
             match to_binary(&resp) {
                 Ok(b) => SystemResult::Ok(ContractResult::Ok(b)),
@@ -213,6 +222,7 @@ enum Ev {
     SeedAsk(Vec<u8>, AskOrderV1),
     SeedBid3(Vec<u8>, BidOrderV3),
     SeedBid2(Vec<u8>, BidOrderV2),
+    SeedBid2X(Vec<u8>, BidOrderV2),
 }
 
 fn parse_env(t: &mut Toks) -> PResult<Tables> {
@@ -247,8 +257,16 @@ fn parse_env(t: &mut Toks) -> PResult<Tables> {
     if a != "[]" {
         for item in a.split(',') {
             let (acct, names) = item.split_once('=').ok_or(Malformed)?;
-            let names = names.split(';').map(dec_str).collect::<PResult<Vec<String>>>()?;
-            if tables.attrs.insert(dec_str(acct)?, names).is_some() {
+            // `|` separates the pages the attribute module serves the listing in (next_key set on all but the last)
+            let mut pages = vec![];
+            for page in names.split('|') {
+                if page.is_empty() {
+                    pages.push(vec![]);
+                } else {
+                    pages.push(page.split(';').map(dec_str).collect::<PResult<Vec<String>>>()?);
+                }
+            }
+            if tables.attrs.insert(dec_str(acct)?, pages).is_some() {
                 return Err(Malformed);
             }
         }
@@ -501,7 +519,8 @@ fn parse_event(line: &str) -> PResult<Ev> {
                 },
             )
         }
-        "SEEDBID2" => {
+        "SEEDBID2" | "SEEDBID2X" => {
+            let extra = word == "SEEDBID2X";
             let key = t.bytes()?;
             let id = t.string()?;
             let owner = Addr::unchecked(t.string()?);
@@ -513,7 +532,8 @@ fn parse_event(line: &str) -> PResult<Ev> {
             let price = t.string()?;
             let events = parse_events(t.next()?, &base_denom, &quote_denom, &price)?;
             t.end()?;
-            Ev::SeedBid2(
+            let mk = if extra { Ev::SeedBid2X } else { Ev::SeedBid2 };
+            mk(
                 key,
                 BidOrderV2 {
                     base: Coin { denom: base_denom, amount: base_amt },
@@ -941,6 +961,18 @@ impl<W: Write> Runner<W> {
             }
             Ev::SeedBid2(key, b) => {
                 let r = self.guarded(|deps| BIDS_V2.save(&mut deps.storage, &key, &b).map_err(|e| e.to_string()));
+                self.seeded(r);
+            }
+            Ev::SeedBid2X(key, b) => {
+                // the same record as stored JSON text carrying one more top-level member than the struct declares
+                let r = self.guarded(|deps| {
+                    let json = cosmwasm_std::to_vec(&b).map_err(|e| e.to_string())?;
+                    let mut raw = b"{\"size\":\"10\",".to_vec();
+                    raw.extend_from_slice(&json[1..]);
+                    let path = BIDS_V2.key(&key);
+                    deps.storage.set(&path, &raw);
+                    Ok(())
+                });
                 self.seeded(r);
             }
         }
